@@ -1,0 +1,8 @@
+//go:build !verif
+
+// Package verifhook provides scheduling points for the verification harness.
+// It is compiled to a no-op unless the "verif" build tag is set.
+package verifhook
+
+// Point does nothing unless the "verif" build tag is set.
+func Point(string) {}
